@@ -444,3 +444,8 @@ func init() {
 	mutant("phantom-guard-drops-last-field", "no-phantom-field", "serverConn.go", "		if len(b) == 0 && hf.Empty() {\n			// The fragment ended in a dynamic table size update, which\n			// consumes input without producing a field: there", "		if len(b) == 0 || hf.Empty() {\n			// The fragment ended in a dynamic table size update, which\n			// consumes input without producing a field: there")
 	mutant("phantom-field-client", "no-phantom-field", "conn.go", "		if len(b) == 0 && hf.Empty() {\n			// The fragment ended in a dynamic table size update, which\n			// consumes input without producing a field.\n			break\n		}\n", "")
 }
+
+func init() {
+	mutant("client-chunks-share-a-buffer", "chunk-storage-per-stream", "conn.go", "	buf := pb.buf[:defaultDataFrameSize]", "	buf := c.serverS.rawSettings[:defaultDataFrameSize]")
+	mutant("client-refill-skipped-when-window-shut", "client-request-shape", "conn.go", "			c.sendLck.Unlock()\n\n			if err := c.refillPending(pb); err != nil {", "			blocked := pb.window <= 0 || c.connWindow <= 0\n\n			c.sendLck.Unlock()\n\n			if blocked {\n				return nil\n			}\n\n			if err := c.refillPending(pb); err != nil {")
+}
